@@ -245,7 +245,10 @@ C06_Increasing(I, ev) ==
         LET S == TauSeq(I, ev) IN
           \A k \in 2..Len(S) :
             IF IsNearest(I) THEN Diff(S[k], S[k - 1]) >= -2 * EpsAt(I, S[k])
-            ELSE Diff(S[k], S[k - 1]) > 0
+            \* f32: the instant is read off an f32 sample; a million frames into the stream its resolution
+            \* (2^-24 relative) is of the order of a small step
+            ELSE IF I.T = 64 THEN Diff(S[k], S[k - 1]) > 0
+            ELSE Diff(S[k], S[k - 1]) > -2 * EpsAt(I, S[k])
 
 \* A ramp is realised in discrete steps; it may stop a few steps short of, or beyond, the
 \* target.  This is the resolution of "equals 1/new": 4 ramp steps.
